@@ -398,12 +398,105 @@ theorem terminates_past_window (hinj : IdInj parse anc) (hgen : (lastOf start an
       · simp only [hh, Bool.false_eq_true, if_false, Nat.zero_add] at hcount
         rw [hn]; simp; omega
 
-/-- And it closes for the right reason only: the channel is closed by the loop exactly when the
-last block is older than the minimum timestamp or is genesis. -/
-theorem closed_reason (c : Client) (h : c.isClosed true = true) (hc : c.closed = false) :
-    c.last.ts < c.min ∨ c.last.height = 0 := by
-  simp [Client.isClosed, hc, stopCond] at h
-  exact h
+/-! #### why the channel was closed -/
+
+/-- `close(resultChan)` has been executed only if the stop test held for `lastBlock` with the
+minimum timestamp read at that moment (which the model freezes in `c.min` from then on). -/
+def ClosedOK (fixed : Bool) (c : Client) : Prop :=
+  c.closed = true → stopCond fixed c.last c.min = true
+
+theorem pb_closedOK (fixed : Bool) : ∀ (raws : List Raw) (c : Client) (exp : Nat),
+    c.closed = false → ClosedOK fixed (processBlocks fixed parse c exp raws) := by
+  intro raws
+  induction raws with
+  | nil => intro c exp hc h; simp [processBlocks, hc] at h
+  | cons raw rs ih =>
+    intro c exp hc
+    unfold processBlocks
+    cases parse raw with
+    | none => intro h; simp [hc] at h
+    | some b =>
+      simp only []
+      by_cases hid : exp ≠ b.id
+      · rw [if_pos hid]; intro h; simp [hc] at h
+      · rw [if_neg hid]
+        by_cases hs : stopCond fixed b c.min = true
+        · rw [if_pos hs]; intro _; exact hs
+        · rw [if_neg hs]; exact ih _ _ hc
+
+theorem step_closedOK (fixed : Bool) (c : Client) (ev : Event) (hc : ClosedOK fixed c) :
+    ClosedOK fixed (c.step fixed parse ev) := by
+  unfold Client.step
+  cases ho : c.isClosed fixed with
+  | true =>
+    simp only [if_true]
+    intro _
+    cases hcl : c.closed with
+    | true => exact hc hcl
+    | false => simpa [Client.isClosed, hcl] using ho
+  | false =>
+    simp only [Bool.false_eq_true, if_false]
+    have hcl : c.closed = false := by
+      cases h : c.closed with
+      | false => rfl
+      | true => simp [Client.isClosed, h] at ho
+    cases ev.resp with
+    | err => intro h; simp [hcl] at h
+    | blocks raws => exact pb_closedOK fixed raws _ _ hcl
+
+/-- **Closed for the right reason only, over every run**: whenever the client counts as closed
+after any sequence of peer events, `lastBlock` is older than the minimum timestamp that was in
+force when it closed, or (repaired loop) is genesis. -/
+theorem closed_reason (fixed : Bool) (start : Block) (min0 : Int) (evs : List Event) :
+    let c := Client.run fixed parse (Client.init start min0) evs
+    c.isClosed fixed = true → c.last.ts < c.min ∨ (fixed = true ∧ c.last.height = 0) := by
+  have key : ∀ (evs : List Event) (c : Client), ClosedOK fixed c →
+      ClosedOK fixed (Client.run fixed parse c evs) := by
+    intro evs
+    induction evs with
+    | nil => intro c hc; exact hc
+    | cons ev rest ih => intro c hc; exact ih _ (step_closedOK fixed c ev hc)
+  intro c hcl
+  have hok : ClosedOK fixed c := key evs _ (by intro h; simp [Client.init] at h)
+  have hs : stopCond fixed c.last c.min = true := by
+    cases hcc : c.closed with
+    | true => exact hok hcc
+    | false => simpa [Client.isClosed, hcc] using hcl
+  simpa [stopCond] using hs
+
+theorem lastOf_mem (start : Block) (l : List Block) : lastOf start l ∈ start :: l := by
+  unfold lastOf
+  cases h : l.getLast? with
+  | none => simp
+  | some x => simp [List.mem_of_getLast? h]
+
+/-- **Backfill completes only past the window edge.** If the (repaired) client is closed, then
+every real ancestor whose timestamp is at least the minimum timestamp in force has been emitted
+(hence saved and tracked): the emitted prefix reaches the first ancestor older than the minimum,
+or genesis. `hsorted`: along `start :: anc` timestamps do not increase and heights decrease
+(C11). -/
+theorem closed_covers_min (hl : Linked start.parent anc) (hinj : IdInj parse anc)
+    (hgen : (lastOf start anc).height = 0)
+    (hsorted : (start :: anc).Pairwise (fun a b => b.ts ≤ a.ts ∧ b.height < a.height))
+    (min0 : Int) (evs : List Event) (c : Client)
+    (hc : c = Client.run true parse (Client.init start min0) evs) :
+    c.isClosed true = true → ∀ A ∈ anc, c.min ≤ A.ts → A ∈ c.emitted := by
+  subst hc
+  intro hcl A hA hmin
+  obtain ⟨rest, h1, h2, _⟩ := run_inv hinj hgen evs _ (cinv_init hl min0)
+  have hreason := closed_reason (parse := parse) true start min0 evs hcl
+  rw [h1] at hA
+  rcases List.mem_append.mp hA with hm | hm
+  · exact hm
+  · exfalso
+    have hsplit : start :: anc = (start :: (Client.run true parse (Client.init start min0) evs).emitted) ++ rest := by
+      rw [h1]; simp
+    rw [hsplit] at hsorted
+    have hrel := (List.pairwise_append.mp hsorted).2.2 _ (lastOf_mem start _) A hm
+    rw [← h2] at hrel
+    rcases hreason with hlt | ⟨_, h0⟩
+    · omega
+    · omega
 
 /-! ### the defect in the code as found -/
 
@@ -470,29 +563,32 @@ variable {U : Universe} {W : Int}
 
 /-- States of the window under `Start(target0)` followed by any interleaving of forward targets
 (each extending the previous one) and backfilled historical blocks. `oldest` is
-`validityBlocks[0]` of the `populate` at `Start`. -/
-inductive Fwd (U : Universe) (W : Int) (oldest : Block) : VW → Block → Prop
+`validityBlocks[0]` of the `populate` at `Start`; the list is every block given to the window
+so far (`populate`'s blocks, targets, historical blocks). -/
+inductive Fwd (U : Universe) (W : Int) (oldest : Block) : VW → Block → List Block → Prop
   | start {idx : Index} {fuel : Nat} {t0 : Block} {v0 v : VW} {chron : List Block} {full : Bool} :
       (∀ i b, idx i = some b → U i = some b) → InU U t0 → Prov U v0.seen →
       populate idx W v0 fuel t0 = (v, chron, full) → chron.head? = some oldest →
-      Fwd U W oldest v t0
-  | target {v : VW} {t t' : Block} :
-      Fwd U W oldest v t → InU U t' → U t'.parent = some t → Fwd U W oldest (accept v t') t'
-  | hist {v : VW} {t b : Block} :
-      Fwd U W oldest v t → InU U b → Fwd U W oldest (acceptHistorical v b) t
+      Fwd U W oldest v t0 chron
+  | target {v : VW} {t t' : Block} {got : List Block} :
+      Fwd U W oldest v t got → InU U t' → U t'.parent = some t →
+      Fwd U W oldest (accept v t') t' (t' :: got)
+  | hist {v : VW} {t b : Block} {got : List Block} :
+      Fwd U W oldest v t got → InU U b → Fwd U W oldest (acceptHistorical v b) t (b :: got)
 
-/-- Invariant of the forward path: everything strictly newer than `oldest` on the target's
-chain is covered. -/
-structure FInv (U : Universe) (oldest : Block) (v : VW) (t : Block) : Prop where
+/-- Invariant of these states: every still-includable tx of every block given so far is
+tracked, and everything strictly newer than `oldest` on the target's chain has been given. -/
+structure FInv (U : Universe) (oldest : Block) (v : VW) (t : Block) (got : List Block) : Prop where
   height : v.lastAccepted = t.height
   prov : Prov U v.seen
   anc : Anc U oldest t
   inU : InU U t
-  cover : ∀ A, Anc U A t → oldest.ts < A.ts → ∀ x ∈ A.txs, t.ts ≤ x.expiry →
-    v.seen.contains x.id = true
+  gotU : ∀ b ∈ got, InU U b
+  track : ∀ A ∈ got, ∀ x ∈ A.txs, t.ts ≤ x.expiry → v.seen.contains x.id = true
+  chain : ∀ A, Anc U A t → oldest.ts < A.ts → A ∈ got
 
-theorem fwd_inv (h : WF U W) {oldest : Block} {v : VW} {t : Block} (hf : Fwd U W oldest v t) :
-    FInv U oldest v t := by
+theorem fwd_inv (h : WF U W) {oldest : Block} {v : VW} {t : Block} {got : List Block}
+    (hf : Fwd U W oldest v t got) : FInv U oldest v t got := by
   induction hf with
   | @start idx fuel t0 v0 v chron full hidx hT hp0 hpop hhead =>
     unfold populate at hpop
@@ -520,45 +616,115 @@ theorem fwd_inv (h : WF U W) {oldest : Block} {v : VW} {t : Block} (hf : Fwd U W
     rw [hv] at P C
     have hlast : v.lastAccepted = t0.height := by
       rw [← hv, hch]; exact fold_accept_last pre t0 v0
-    refine ⟨hlast, P, hlow, hT, fun A hA hlt x hx hexp => ?_⟩
     have hoU := Anc.inU h hlow hT
-    have hmem : A ∈ chron := by
-      rw [hch]
-      rcases hcov A hA with rfl | hm | hlo
-      · simp
-      · exact List.mem_append.mpr (Or.inl hm)
-      · have := (Anc.le h hlo hoU).2; omega
-    exact C A hmem x hx hexp
-  | @target v t t' _ hb hpar ih =>
+    refine ⟨hlast, P, hlow, hT, fun b hb => (hall b hb).1, C, fun A hA hlt => ?_⟩
+    rw [hch]
+    rcases hcov A hA with rfl | hm | hlo
+    · simp
+    · exact List.mem_append.mpr (Or.inl hm)
+    · have := (Anc.le h hlo hoU).2; omega
+  | @target v t t' got _ hb hpar ih =>
     have hlk := h.link t' t hb hpar
-    refine ⟨rfl, prov_accept ih.prov hb, Anc.step hpar ih.anc, hb, fun A hA hlt x hx hexp => ?_⟩
-    cases hA with
-    | refl =>
-      obtain ⟨e, hg⟩ := addAll_get_of_mem (s := v.seen.setMin t'.ts) hx (h.txs_valid t' hb x hx).2.2
-      exact contains_of_get hg
-    | step hp2 hA2 =>
-      rw [hpar] at hp2; cases hp2
-      have hAU := Anc.inU h hA2 ih.inU
-      obtain ⟨e, hg⟩ := get_of_contains (ih.cover A hA2 hlt x hx (by omega))
-      have he : e = x.expiry := stored_eq h ih.prov hAU hx hg
-      exact contains_of_get (addAll_get_of_some (setMin_get.mpr ⟨hg, by omega⟩))
-  | @hist v t b _ hb ih =>
-    refine ⟨ih.height, prov_addAll ih.prov hb, ih.anc, ih.inU, fun A hA hlt x hx hexp => ?_⟩
-    obtain ⟨e, hg⟩ := get_of_contains (ih.cover A hA hlt x hx hexp)
-    exact contains_of_get (addAll_get_of_some hg)
+    refine ⟨rfl, prov_accept ih.prov hb, Anc.step hpar ih.anc, hb, ?_, ?_, ?_⟩
+    · intro b hb'
+      cases hb' with
+      | head => exact hb
+      | tail _ hm => exact ih.gotU b hm
+    · intro A hA x hx hexp
+      cases hA with
+      | head =>
+        obtain ⟨e, hg⟩ := addAll_get_of_mem (s := v.seen.setMin t'.ts) hx (h.txs_valid t' hb x hx).2.2
+        exact contains_of_get hg
+      | tail _ hm =>
+        obtain ⟨e, hg⟩ := get_of_contains (ih.track A hm x hx (by omega))
+        have he : e = x.expiry := stored_eq h ih.prov (ih.gotU A hm) hx hg
+        exact contains_of_get (addAll_get_of_some (setMin_get.mpr ⟨hg, by omega⟩))
+    · intro A hA hlt
+      cases hA with
+      | refl => exact List.mem_cons_self
+      | step hp2 hA2 =>
+        rw [hpar] at hp2; cases hp2
+        exact List.mem_cons_of_mem _ (ih.chain A hA2 hlt)
+  | @hist v t b got _ hb ih =>
+    refine ⟨ih.height, prov_addAll ih.prov hb, ih.anc, ih.inU, ?_, ?_, fun A hA hlt =>
+      List.mem_cons_of_mem _ (ih.chain A hA hlt)⟩
+    · intro b' hb'
+      cases hb' with
+      | head => exact hb
+      | tail _ hm => exact ih.gotU b' hm
+    · intro A hA x hx hexp
+      cases hA with
+      | head =>
+        obtain ⟨e, hg⟩ := addAll_get_of_mem (s := v.seen) hx (h.txs_valid b hb x hx).2.2
+        exact contains_of_get hg
+      | tail _ hm =>
+        obtain ⟨e, hg⟩ := get_of_contains (ih.track A hm x hx hexp)
+        exact contains_of_get (addAll_get_of_some hg)
 
 /-- **Forward completion is sound.** When the syncer's forward rule fires for target `t`
 (`t.ts - oldestBlock.ts > W`), the window state satisfies the full C09 invariant at `t`: every
 tx of `t` or of any ancestor of `t` that a later block could still include (`t.ts ≤ expiry`,
 hence ancestor timestamp `≥ t.ts − W`) is tracked — so cancelling the backfill is safe. -/
 theorem forward_done_implies_window_covered (h : WF U W) {oldest : Block} {v : VW} {t : Block}
-    (hf : Fwd U W oldest v t) (hd : forwardRule W oldest t = true) : SeenInv U v t := by
+    {got : List Block} (hf : Fwd U W oldest v t got) (hd : forwardRule W oldest t = true) :
+    SeenInv U v t := by
   have inv := fwd_inv h hf
   have hd' : t.ts - oldest.ts > W := by simpa [forwardRule] using hd
   refine ⟨inv.height, fun A hA x hx hexp => ?_, inv.prov⟩
   have hAU := Anc.inU h hA inv.inU
   have hv := h.txs_valid A hAU x hx
-  exact inv.cover A hA (by omega) x hx hexp
+  exact inv.track A (inv.chain A hA (by omega)) x hx hexp
+
+/-- **Backward completion, window level (partial).** If the blocks given to the window cover
+every ancestor-or-self of the current target `t` with timestamp `≥ oldestAllowed t.ts`, the full
+C09 invariant holds at `t`. PARTIAL: the coverage premise `hcover` is what `Sync.done` by a
+closed channel provides (`closed_covers_min` below: the emitted = saved blocks reach the first
+ancestor older than the minimum timestamp in force, or genesis; `FInv.chain` covers everything
+newer than `oldestBlock`), but composing these through `Sync.run` with interleaved targets
+(`pendingMin ≤ oldestAllowed` of the current target), storage failures and the client/syncer
+correspondence is not mechanised. -/
+theorem backfill_done_implies_window_covered_partial (h : WF U W) {oldest : Block} {v : VW}
+    {t : Block} {got : List Block} (hf : Fwd U W oldest v t got)
+    (hcover : ∀ A, Anc U A t → oldestAllowed W t.ts ≤ A.ts → A ∈ got) : SeenInv U v t := by
+  have inv := fwd_inv h hf
+  refine ⟨inv.height, fun A hA x hx hexp => ?_, inv.prov⟩
+  have hAU := Anc.inU h hA inv.inU
+  exact inv.track A (hcover A hA (oldest_le_of_valid h hAU hx hexp)) x hx hexp
+
+/-- Link to the syncer machine, one step each: `Sync.target` is `Fwd.target`, and the consumer
+(`Sync.consume`, any `failAt`) is a sequence of `Fwd.hist` steps over a prefix of the blocks. -/
+theorem fwd_of_target {oldest : Block} {s : Sync} {t t' : Block} {got : List Block}
+    (hf : Fwd U W oldest s.vw t got) (hb : InU U t') (hpar : U t'.parent = some t) :
+    Fwd U W oldest (s.target W t').vw t' (t' :: got) := by
+  unfold Sync.target
+  split <;> exact Fwd.target hf hb hpar
+
+theorem fwd_of_consume {oldest : Block} {t : Block} (failAt : Option Nat) :
+    ∀ (l : List Block) (s : Sync) (got : List Block), Fwd U W oldest s.vw t got →
+      (∀ b ∈ l, InU U b) → ∃ got', Fwd U W oldest (Sync.consume failAt s l).vw t got' ∧
+        (∀ b ∈ got, b ∈ got') ∧ (∀ b ∈ (Sync.consume failAt s l).saved, b ∈ s.saved ∨ b ∈ got') := by
+  intro l
+  induction l with
+  | nil => intro s got hf _; exact ⟨got, hf, fun _ hb => hb, fun b hb => Or.inl hb⟩
+  | cons b rest ih =>
+    intro s got hf hl
+    unfold Sync.consume
+    by_cases hfail : s.failed = true
+    · simp only [hfail, if_true]; exact ⟨got, hf, fun _ hb => hb, fun b hb => Or.inl hb⟩
+    · simp only [hfail, Bool.false_eq_true, if_false]
+      by_cases hfa : (failAt == some s.consumed) = true
+      · simp only [hfa, if_true]; exact ⟨got, hf, fun _ hb => hb, fun b hb => Or.inl hb⟩
+      · simp only [hfa, Bool.false_eq_true, if_false]
+        obtain ⟨got', hf', hsub, hsaved⟩ := ih
+          { s with vw := acceptHistorical s.vw b, saved := s.saved ++ [b], consumed := s.consumed + 1, failed := false }
+          (b :: got) (Fwd.hist hf (hl b List.mem_cons_self)) (fun x hx => hl x (List.mem_cons_of_mem _ hx))
+        refine ⟨got', hf', fun x hx => hsub x (List.mem_cons_of_mem _ hx), fun x hx => ?_⟩
+        rcases hsaved x hx with h1 | h1
+        · rcases List.mem_append.mp h1 with h2 | h2
+          · exact Or.inl h2
+          · have : x = b := by simpa using h2
+            subst this; exact Or.inr (hsub _ List.mem_cons_self)
+        · exact Or.inr h1
 
 /-- `UpdateSyncTarget` in the model sets done exactly by the strict rule. -/
 theorem target_done_iff (s : Sync) (t : Block) (hs : s.fwdDone = false) :
